@@ -21,6 +21,15 @@ LETTER = {"P": ("Pawn", "White"), "K": ("King", "White"), "Q": ("Queen", "White"
 SETTER = {"pawns": "Pawn", "king": "King", "queens": "Queen", "rooks": "Rook", "bishops": "Bishop", "knights": "Knight"}
 
 
+def _acc(e):
+    """Name of an accumulator: a local variable, or a field of a local struct of accumulators."""
+    if e[0] == "var":
+        return e[1]
+    if e[0] == "field" and e[1][0] == "var":
+        return expr_str(e)
+    return None
+
+
 def rule_letters(ctx):
     """piece_placement: letter -> accumulator -> BoardBuilder setter of that kind and colour."""
     ix = ctx.ix
@@ -34,16 +43,17 @@ def rule_letters(ctx):
             tgt = mir.strip_refs(v[3][0])
             cons = C.constraints_for(ix, b, sym, bi)
             chars = [c for c in cons if c[0].endswith("as Some).0") and len(c[1]) == 1]
-            if chars and tgt[0] == "var":
-                letter_to_local[chr(int(next(iter(chars[-1][1]))))] = tgt[1]
+            if chars and _acc(tgt):
+                letter_to_local[chr(int(next(iter(chars[-1][1]))))] = _acc(tgt)
     local_to_kc = {}
     for bi, t in b.calls():
         c = strip_generics(t.get("callee") or "")
         if c.startswith(BB) and c.split("::")[-1] in SETTER:
             col = sym.operand(t["args"][1])
             val = sym.operand(t["args"][2])
-            if col[0] == "agg" and val[0] == "var":
-                local_to_kc.setdefault(val[1], []).append((SETTER[c.split("::")[-1]], col[2]))
+            val = mir.strip_copies(val)
+            if col[0] == "agg" and _acc(val):
+                local_to_kc.setdefault(_acc(val), []).append((SETTER[c.split("::")[-1]], col[2]))
     for ch, want in sorted(LETTER.items()):
         loc = letter_to_local.get(ch)
         got = local_to_kc.get(loc)
